@@ -1,5 +1,6 @@
 import GwbVerif.Properties.C10
 import GwbVerif.Properties.C10Quaternion
+import GwbVerif.Properties.C10Grains
 open Gwb
 #print axioms C10_resolve_own
 #print axioms C10_resolve_inherit_nearest
@@ -61,6 +62,14 @@ open Gwb
 #print axioms C15_blend_orthonormal_iff
 #print axioms C15_blend_linear_defect
 #print axioms C10_quat_laws_real
+#print axioms C02_line_no_grains_models_rotation_unchanged
+#print axioms C02_line_no_grains_models_unchanged_iff
+#print axioms C02_line_no_grains_models_rotation_block_unchanged
+#print axioms C10_slerp_geodesic
+#print axioms C10_slerp_geodesic_angle
+#print axioms C10_slerp_geodesic_linear
+#print axioms C10_grains_blend_between
+#print axioms C10_grains_laws_real
 #check @C10_resolve_own
 #check @C10_resolve_inherit_nearest
 #check @C10_resolve_nowhere
@@ -123,3 +132,11 @@ open Gwb
 #check @C15_blend_orthonormal_iff
 #check @C15_blend_linear_defect
 #check @C10_quat_laws_real
+#check @C02_line_no_grains_models_rotation_unchanged
+#check @C02_line_no_grains_models_unchanged_iff
+#check @C02_line_no_grains_models_rotation_block_unchanged
+#check @C10_slerp_geodesic
+#check @C10_slerp_geodesic_angle
+#check @C10_slerp_geodesic_linear
+#check @C10_grains_blend_between
+#check @C10_grains_laws_real
